@@ -50,6 +50,21 @@ func genC07() *rapid.Generator[c07Case] {
 				c.Store.LatencyUs[k] = pick(t, "latus_"+k, []int{300, 1000, 3000})
 			}
 		}
+		if chance(t, "faulted", 35) {
+			// a flush that fails after (or at) CreateFile, followed by a slow cleanup:
+			// the failed request's waiters are still owed their error answer while the
+			// next requests queue up behind it
+			nflt := rapid.IntRange(1, 2).Draw(t, "nfaults")
+			for i := 0; i < nflt; i++ {
+				c.Store.FailKind = append(c.Store.FailKind, pick(t, "failkind", []string{"Write", "Write", "Close", "Close", "CreateFile", "Update"}))
+				c.Store.FailN = append(c.Store.FailN, rapid.IntRange(0, 4).Draw(t, "failn"))
+			}
+			for _, k := range []string{"Abort", "Tombstone"} {
+				if chance(t, "lat_"+k, 75) {
+					c.Store.LatencyUs[k] = pick(t, "cleanus_"+k, []int{1000, 5000, 12000})
+				}
+			}
+		}
 		n := rapid.IntRange(2, 9).Draw(t, "nbatches")
 		late := false
 		for i := 0; i < n; i++ {
@@ -342,7 +357,14 @@ func runC07(c c07Case) *Violation {
 	if v != nil {
 		return v
 	}
-	if atomic.LoadInt32(&inFlightSeen) == 1 {
+	fired := ctl.FiredCount()
+	if fired > 0 {
+		Ev.Class("store-call-failed-during-a-flush")
+		if c.Store.LatencyUs["Abort"]+c.Store.LatencyUs["Tombstone"] > 0 {
+			Ev.Class("failed-flush-with-slow-cleanup")
+		}
+	}
+	if atomic.LoadInt32(&inFlightSeen) == 1 && fired == 0 {
 		Ev.Class("ack-or-flush-observed-with-flush-in-flight")
 		Ev.NonTrivial(jsonKey(c))
 		if Ev.WantSample() {
@@ -358,7 +380,7 @@ func runC07(c c07Case) *Violation {
 }
 
 func TestC07(t *testing.T) {
-	Ev.Rule = "case = one ingester issuing 2-9 batches (good / empty / unmarshalable; buffered done channels, at most one unbuffered channel whose receiver arrives 150-220 ms late) in a known acceptance order, 0-2 goroutines calling Flush 1-3 times, the run ending with a final Flush or (40%) with Stop while flushes are still queued, stores with 0.3-3 ms latency per call so flushes are queued or in flight, flush triggers by rows / bytes / partition limits / time and ack-only flushes, GOMAXPROCS varied. Oracle: an observer polls the done channels newest-first; on receiving nil for a non-empty batch k every earlier non-empty accepted batch must already hold/have delivered a value, and every earlier nil-acked batch (and k) must be visible to a query issued at that moment; when Flush returns nil the same holds for every batch accepted before Flush was called. Non-trivial: an ack or a Flush return was observed while a flush was in flight (CreateFile started, Update not finished); distinct by case."
+	Ev.Rule = "case = one ingester issuing 2-9 batches (good / empty / unmarshalable; buffered done channels, at most one unbuffered channel whose receiver arrives 150-220 ms late) in a known acceptance order, 0-2 goroutines calling Flush 1-3 times, the run ending with a final Flush or (40%) with Stop while flushes are still queued, stores with 0.3-3 ms latency per call so flushes are queued or in flight, in 35% of cases one or two one-shot store failures (Write / Close / CreateFile / Update at ordinal 0-4) with Abort / TombstoneFile cleanup taking 1-12 ms so a failed flush still owes its error answers while later requests queue behind it, flush triggers by rows / bytes / partition limits / time and ack-only flushes, GOMAXPROCS varied. Oracle: an observer polls the done channels newest-first; on receiving nil for a non-empty batch k every earlier non-empty accepted batch must already hold/have delivered a value, and every earlier nil-acked batch (and k) must be visible to a query issued at that moment; when Flush returns nil the same holds for every batch accepted before Flush was called. Non-trivial: an ack or a Flush return was observed while a flush was in flight (CreateFile started, Update not finished); distinct by case."
 	Ev.Assumptions = []string{"empty batches are acknowledged immediately by design (documented) and carry no ordering obligation; error answers are exempt by the statement", "a late unbuffered receiver is given 40 ms to record a value it has already received"}
 	runChecks(t, "schedules", 200, 15000, genC07(), runC07)
 }
